@@ -1096,13 +1096,18 @@ static int _GD_Change(DIRFILE *D, const char *field_code, const gd_entry_t *N,
     for (i = 0; i < GD_MAX_LINCOM; ++i) {
       if (field_free & (1 << i)) {
         Qe.entry[i] = NULL;
+        if (Q.in_fields[i] == E->in_fields[i])
+          Q.in_fields[i] = NULL; /* dropped, not replaced */
         free(E->in_fields[i]);
       }
     }
 
     for (i = 0; i <= GD_MAX_POLYORD; ++i) {
-      if (scalar_free & (1 << i))
+      if (scalar_free & (1 << i)) {
+        if (Q.scalar[i] == E->scalar[i])
+          Q.scalar[i] = NULL; /* dropped, not replaced */
         free(E->scalar[i]);
+      }
     }
 
     if (E->field_type == GD_LINTERP_ENTRY && flags)
